@@ -128,7 +128,10 @@ func zzOpAdd(tp *TXPool, m *zzModel) {
 	zzUnlocked(tp)
 	if i >= 0 {
 		zzsym.Assert(!ok, "adding a transaction whose hash is pooled is refused")
-		zzsym.Assert(tp.txList[e.Tx.Hash()] == m.ents[i], "a refused add leaves the pooled entry in place")
+		tp.RLock() // the harness, too, reads the map only under the lock (lock-discipline monitor)
+		kept := tp.txList[e.Tx.Hash()]
+		tp.RUnlock()
+		zzsym.Assert(kept == m.ents[i], "a refused add leaves the pooled entry in place")
 		zzsym.Cover("add-duplicate")
 	} else {
 		zzsym.Assert(ok, "adding a new transaction succeeds")
@@ -267,6 +270,7 @@ func zzFilled() (*TXPool, *zzModel) {
 	tp := &TXPool{}
 	tp.Init()
 	zzUnlocked(tp)
+	zzsym.Guard(true) // from here on the pool is shared: txList only under the pool lock (spec "guarded")
 	m := &zzModel{}
 	n := zzsym.Choose("fill", zzsym.Param("K")+1)
 	for k := 0; k < n; k++ {
@@ -314,6 +318,7 @@ func ZZ_C37_OpsAgainstModel() {
 	tp := &TXPool{}
 	tp.Init()
 	zzUnlocked(tp)
+	zzsym.Guard(true) // from here on the pool is shared: txList only under the pool lock (spec "guarded")
 	m := &zzModel{}
 	for t := 0; t < T; t++ {
 		switch zzsym.Choose("op", 6) {
@@ -371,4 +376,14 @@ func ZZ_C37_CleanDelRemain_witness() {
 	zzOpAdd(tp, m)
 	tp.CleanTransactionList([]*types.Transaction{zzTx("clean")})
 	zzsym.Assert(tp.GetTransactionCount() == 1, "witness: the cleaned transaction can be the pooled one")
+}
+
+// witness for the lock-discipline monitor: a read of the pool's map outside the lock is reported
+func ZZ_C37_LockDiscipline_witness() {
+	tp := &TXPool{}
+	tp.Init()
+	zzsym.Guard(true)
+	if len(tp.txList) != 0 {
+		panic("zz: fresh pool not empty")
+	}
 }
